@@ -35,7 +35,13 @@ def header(c):
     h = f"CASE {c['cid']} {c['kind']} {bits(c['rate'])}"
     if c['kind'] == 'rr':
         return h + f" {len(c['flows'])} " + ' '.join(str(f) for f in c['flows'])
-    h += f" {len(c['table'])} " + ' '.join(f'{k} {v}' for k, v in c['table'])
+    table = c['table']
+    if c['kind'] == 'sp' and any(not isinstance(v, int) for _, v in table):
+        # priority values that are not whole numbers: the model takes natural-number priorities and uses nothing but their order
+        # (and that they are positive), so the table is handed over order-isomorphically as ranks 1, 2, ... (equal values, equal ranks)
+        ranks = {v: i + 1 for i, v in enumerate(sorted({v for _, v in table}))}
+        table = [[k, ranks[v]] for k, v in table]
+    h += f" {len(table)} " + ' '.join(f'{k} {v}' for k, v in table)
     if c['kind'] == 'drr':
         m = c.get('map') or []
         h += f" {len(m)}" + ''.join(f' {f} {k}' for f, k in m)
@@ -273,6 +279,26 @@ def build_instance(env, c, counter):
     with quiet():
         sched = build(env, c)
     run = MQRun(env, sched, c)
+    pl = c.get('poll')
+    if pl:
+        # operator / statistics code reading the backlog of every CONFIGURED flow through the public accessors size(), byte_size(),
+        # all_flows() - from before the first packet on and between arrivals.  Reading changes nothing the properties speak about.
+        run.polls = 0
+        def poll_now():
+            for f in flows_of(c):
+                if pl['what'] in ('size', 'both'):
+                    sched.size(f)
+                if pl['what'] in ('byte_size', 'both'):
+                    sched.byte_size(f)
+            sched.all_flows()
+            run.polls += 1
+        def poller():
+            for d in pl['periods']:
+                yield env.timeout(d)
+                poll_now()
+        if pl['at_build']:
+            poll_now()
+        env.process(poller())
     for flow, size in c.get('pre', []):      # calls of put() before the scheduler's loop has run
         counter[0] += 1
         with quiet():
@@ -299,7 +325,10 @@ def run_impl(c, budget=20.0):
         raise TimeoutError(f'the scheduler loop did not yield for {budget:g} s of CPU time (it spins)')
     # CPU time of this process, not wall time: a busy machine must not look like a spinning scheduler
     old = signal.signal(signal.SIGPROF, on_alarm)
-    signal.setitimer(signal.ITIMER_PROF, budget)
+    # the watchdog keeps firing (every second after the first expiry): with several schedulers in one Environment the exception ends
+    # the process of ONE spinning loop (the kernel turns it into that process's failure and raises it from a later step); the next kernel
+    # step may enter the loop of another instance that spins as well
+    signal.setitimer(signal.ITIMER_PROF, budget, 1.0)
     run = None
     try:
         def mk(j):
@@ -342,14 +371,14 @@ def run_impl(c, budget=20.0):
 
 def units(c, r):
     """[(label, sub-case, MQRun, replayed through the model?)]: the scheduler under test and the peers of its group"""
-    out = [('', c, r, True)]
+    out = [('', c, r, not c.get('poll'))]
     peers = c.get('peers') or []
     for j, (pc, pr) in enumerate(zip(peers, r.peers)):
         tab = pc['flows'] if pc['kind'] == 'rr' else pc['table']
         how = (f'built at t={pc["at"]} from the table of the first' if pc.get('at') else
                f'{"flows" if pc["kind"] == "rr" else "table"} {tab}' + (f' map {pc["map"]}' if pc.get('map') else ''))
         out.append((f'instance {j + 2} of {len(peers) + 1} {pc["kind"].upper()} schedulers in one Environment ({how}): ',
-                    dict(pc, cid=f"{c['cid']}.p{j + 1}"), pr, not pc.get('at')))
+                    dict(pc, cid=f"{c['cid']}.p{j + 1}"), pr, not pc.get('at') and not pc.get('poll')))
     return out
 
 
@@ -368,14 +397,34 @@ def flows_of(c):
     return [f for f, _ in c['map']] if c.get('map') else [k for k, _ in c['table']]
 
 
-def gen_group(rng, cid, kind, backlog=False, share=0.3):
+def gen_poll(rng, c):
+    unit = 0.5 if c['rate'] >= 1000 else 1
+    return {'at_build': rng.random() < 0.75, 'what': rng.choice(['size', 'byte_size', 'both', 'both']),
+            'periods': [rng.choice([0, 0.25, 0.5, 1, 1, 2, 3]) * unit for _ in range(rng.randint(0, 12))]}
+
+
+def gen_group(rng, cid, kind, backlog=False, share=0.3, poll=0.0, real_prio=0.0):
+    c = _gen_group(rng, cid, kind, backlog, share, real_prio)
+    # `poll`: share of the cases in which the harness, like operator code, reads size() / byte_size() / all_flows() of every configured
+    # flow before the first arrival and between arrivals (public API).  The accessors are backed by defaultdicts, so a read makes a
+    # flow appear in all_flows() (and in Monitor samples, with 0) before its first packet: these instances are outside the replay
+    # (the LTS lists flows from their first arrival) and are judged by the direct oracles only.
+    if poll and rng.random() < poll:
+        c['poll'] = gen_poll(rng, c)
+        for pc in c.get('peers') or []:
+            if rng.random() < 0.5:
+                pc['poll'] = gen_poll(rng, pc)
+    return c
+
+
+def _gen_group(rng, cid, kind, backlog=False, share=0.3, real_prio=0.0):
     """the scheduler under test and, in a share of the cases, PEER schedulers of the same kind alive in the same Environment:
     (1) one with a DIFFERENT table over the SAME flow ids (SP: mostly the opposite priorities; RR: another declaration order;
     WRR/DRR: other weights / another class map), busy at the same time with its own traffic - replayed through the model as a
     case of its own; (2) now and then a second scheduler built LATER (at a positive simulated instant, while the first one is
     at work) from a table equal to the first one's - outside the replay (the LTS starts at time 0), judged by the direct
     oracles.  The properties speak of ONE scheduler: its table, its queues, its credits."""
-    c = gen_case(rng, cid, kind, backlog)
+    c = gen_case(rng, cid, kind, backlog, real_prio=real_prio)
     if rng.random() >= share:
         return c
     c['peers'] = []
@@ -396,7 +445,25 @@ def gen_group(rng, cid, kind, backlog=False, share=0.3):
     return c
 
 
-def gen_case(rng, cid, kind, backlog=False, like=None):
+def real_priorities(rng, table):
+    """priority tables whose values are not small whole numbers (the scheduler only ever compares them): quarters that share an
+    integer part (2.25 / 2.75), values below 1, values beyond 2**31 / 1e9; the order of the listing is independent of the values"""
+    mode = rng.choice(['quarters'] * 5 + ['large', 'large', 'mixed', 'mixed', 'below-one'])
+    out = []
+    for f, p in table:
+        if mode == 'quarters':
+            v = rng.choice([1, 2, 2, 3]) + rng.choice([0.0, 0.25, 0.5, 0.75])
+        elif mode == 'below-one':
+            v = rng.choice([0.125, 0.25, 0.5, 0.75, 0.875, 1.0])
+        elif mode == 'large':
+            v = rng.choice([2.0 ** 31, 1e9, 2.0 ** 40]) + rng.choice([0.25, 0.5, 0.75, 1.0, 2.5]) * rng.choice([1, 1, 3])
+        else:
+            v = rng.choice([p, p + 0.5, p - 0.25, p * 0.125, 1e6 + p, 2.5, 2.75])
+        out.append([f, v])
+    return out
+
+
+def gen_case(rng, cid, kind, backlog=False, like=None, real_prio=0.0):
     """a random configuration + workload for scheduler `kind`; `backlog`: front-load arrivals so that several
     classes stay backlogged for a long stretch; `like`: another case whose flow ids this one shares"""
     c = {'cid': str(cid), 'kind': kind}
@@ -437,6 +504,8 @@ def gen_case(rng, cid, kind, backlog=False, like=None):
             cls = rng.sample(range(0, 12), ncl)
             c['table'] = [[k, rng.randint(1, 4)] for k in cls]
             c['map'] = [[f, rng.choice(cls)] for f in flows]
+    if kind == 'sp' and like is None and real_prio and rng.random() < real_prio:
+        c['table'] = real_priorities(rng, c['table'])
     delays = [0, 0, 0, 1, 1, 2, 3, 5, 10, 0.5, 25, 1.5]
     sparse = (not backlog) and rng.random() < 0.25
     if sparse:
@@ -481,7 +550,7 @@ def replay(cases):
     runs, text = {}, []
     stuck = 0
     for i, c in enumerate(cases):
-        r = run_impl(c, budget=20.0 if stuck == 0 else 3.0)
+        r = run_impl(c, budget=(5.0 if c.get('poll') else 20.0) if stuck == 0 else 3.0)
         runs[c['cid']] = r
         for _, uc, ur, replayed in units(c, r):
             if replayed:
@@ -542,6 +611,11 @@ def evaluate(cases, oracles, nontrivial, rule, again_n=40):
             hist['with flow2class map'] += 1
         if c.get('pre'):
             hist['put before the loop started'] += 1
+        if c.get('poll'):
+            hist['polled through size()/byte_size()/all_flows() (oracle-only)'] += 1
+            hist['polls'] += getattr(r, 'polls', 0)
+        if c['kind'] == 'sp' and any(not isinstance(v, int) for _, v in c['table']):
+            hist['sp: priority values that are not whole numbers (replayed as ranks)'] += 1
         hist['monitors'] += len(c.get('monitors', []))
         hist['monitor samples'] += len(r.samples)
         b, a = coincidences(r)
@@ -595,7 +669,10 @@ def evaluate(cases, oracles, nontrivial, rule, again_n=40):
     # transmission starts, departures and Monitor samples are functions of the configuration and the workload
     again = 0
     for c in cases[:again_n]:
-        r1, r2 = runs[c['cid']], run_impl(c)
+        r1 = runs[c['cid']]
+        if r1.exhausted or (r1.raised or '').startswith('TimeoutError'):
+            continue                    # a case on which the loop spins (reported above) is not run a second time: it costs seconds of CPU
+        r2 = run_impl(c)
         again += 1
         for (label, uc, u1, _), (_, _, u2, _) in zip(units(c, r1), units(c, r2)):
             d1, d2 = digest(u1), digest(u2)
